@@ -4,6 +4,7 @@ mod c04;
 mod c12;
 mod c13;
 mod c14;
+mod corrupt;
 mod crash;
 mod faults;
 mod dbsim;
@@ -51,6 +52,20 @@ fn main() {
                 let secs = if tier == "thorough" { 3000 } else { 420 };
                 shard::run_sharded(&mut rep, "lsm", &pass, n, std::time::Duration::from_secs(secs), "c09:operation-hangs");
                 rep.rule = lsm::rule().to_string();
+                rep
+            }
+        }
+        "c15" => {
+            let sh = shard::parse_shard(&args);
+            if sh.is_some() || replay.is_some() || std::env::var("VERIF_NOSHARD").is_ok() {
+                corrupt::run(&tier, seed, replay.as_deref(), sh)
+            } else {
+                let mut rep = report::Report::new("c15", corrupt::rule());
+                let n = par::threads();
+                let pass: Vec<String> = vec!["--tier".into(), tier.clone(), "--seed".into(), seed.to_string()];
+                let secs = if tier == "thorough" { 3000 } else { 500 };
+                shard::run_sharded(&mut rep, "c15", &pass, n, std::time::Duration::from_secs(secs), "c15:hang-or-abort-on-corrupted-file");
+                rep.rule = corrupt::rule().to_string();
                 rep
             }
         }
